@@ -10,7 +10,8 @@
 (*             per run from the same description the driver builds its     *)
 (*             real blocks from) the environment serves; index = height    *)
 (*             1..H; a block is a sequence of transactions [id, nout, ins, *)
-(*             scr] where ins is a sequence of outpoints <<txid, index>>   *)
+(*             scr, cb] (cb = 1: the block's coinbase, read by the driver  *)
+(*             only) where ins is a sequence of outpoints <<txid, index>>  *)
 (*             and scr the script id of every output (equal ids = address  *)
 (*             re-use; used by the model to predict filter matches, never  *)
 (*             by a clause: the fate of an outpoint does not depend on it) *)
